@@ -54,12 +54,11 @@ OpenQLOf(r, durv) ==
     [] r.kind = "CPhase"  -> << Ins("cz", QTargets(r), <<>>), Ins("barrier", QTargets(r), <<>>),
                                 Ins("update_ph", <<QTargets(r)[1]>>, <<>>), Ins("update_ph", <<QTargets(r)[2]>>, <<>>) >>
     [] r.kind = "Barrier" -> << Ins("barrier", QTargets(r), <<>>) >>
-    [] r.kind = "Wait"    -> << Ins("wait", QTargets(r), <<durv>>) >>
+    [] r.kind = "Wait"    -> << Ins("wait", QTargets(r), <<durv \div 4>>) >>      \* integer time units (durations are quarter units here)
     [] OTHER -> << >>
 
 \* ------------------------------------------------ image of a circuit
 \* Leaf(i, ...) is supplied by the caller (Stim: StimOf(H[i]); OpenQL: OpenQLOf(H[i], duration)); kids are walked in listing order.
-RECURSIVE ImageOf(_, _, _, _, _)
 SortByPos(H, S, kids) ==
   \* direct entries of a block in the order of the listing (position of their first leaf; blocks without leaves keep insertion order, last)
   LET key(k) == LET Ls == Range(LeavesOf(H, k)) \cap DOMAIN S.leaves IN
@@ -67,6 +66,18 @@ SortByPos(H, S, kids) ==
   IN SortSeq(kids, LAMBDA a, b : key(a) < key(b))
 Repeat(s, n) == LET F[k \in 0..n] == IF k = 0 THEN <<>> ELSE F[k-1] \o s IN F[IF n < 0 THEN 0 ELSE n]
 LeafImage(H, S, i, mode) == IF mode = "stim" THEN StimOf(H[i]) ELSE OpenQLOf(H[i], S.leaves[i].dur_v)
+\* Named deviation (known finding S8): the OpenQL exporter adds nested sub-programs while it walks and its own kernel last, so
+\* within every block all nested blocks come first, then the block's own gates.
+RECURSIVE DevSubFirst(_, _, _, _)
+DevSubFirst(H, E, S, i) ==
+  IF H[i].t = "op" THEN LeafImage(H, S, i, "openql")
+  ELSE LET ks == SortByPos(H, S, H[i].kids)
+           subs == SelectSeq(ks, LAMBDA k : H[k].t = "comp")
+           own  == SelectSeq(ks, LAMBDA k : H[k].t = "op")
+           A[k \in 0..Len(subs)] == IF k = 0 THEN <<>> ELSE A[k-1] \o Repeat(DevSubFirst(H, E, S, subs[k]), EvalRep(E, H[subs[k]].rep))
+           B[k \in 0..Len(own)] == IF k = 0 THEN <<>> ELSE B[k-1] \o LeafImage(H, S, own[k], "openql")
+       IN A[Len(subs)] \o B[Len(own)]
+RECURSIVE ImageOf(_, _, _, _, _)
 ImageOf(H, E, S, i, mode) ==
   IF H[i].t = "op" THEN LeafImage(H, S, i, mode)
   ELSE LET ks == SortByPos(H, S, H[i].kids)
